@@ -43,8 +43,8 @@ def build_script(steps, cuts, first_eager, b2b):
     return actions
 
 
-def observe(role, steps, cuts, first_eager=False, b2b=False):
-    sim = simnet.run_scenario(role, build_script(steps, cuts, first_eager, b2b))
+def observe(role, steps, cuts, first_eager=False, b2b=False, budget=20000):
+    sim = simnet.run_scenario(role, build_script(steps, cuts, first_eager, b2b), budget=budget)
     out = sim.outcome
     return {
         'outcome': out[0] if out[0] != 'exception' else 'exception:' + lib_frame(out[1]),
@@ -156,6 +156,39 @@ def run_conv(ctx, job):
                 run_variant(ctx, name, role, steps, base, cuts, fe, b2b, 'pair-cut')
 
 
+def run_long(ctx, n_msgs):
+    """A long pipelined stream (> 64 KiB of PDUs without the peer ever pausing): cumulative buffer handling."""
+    from .. import refpdu
+    flood = [refpdu.enc_pdu(convs.echo_rq(i & 0xFFFF)) for i in range(1, n_msgs + 1)]
+    big = convs.enc(*convs.store_rq_pdus(3, frag=30000))
+    for name, role, steps in (
+            ('acc-echo-flood', 'acceptor', [('burst', convs.enc(convs.RQ_SPEC)), ('user', {'pdu': convs.AC_SPEC}),
+                                            ('burst', flood + convs.enc(convs.ABORT_SP)), ('close',)]),
+            ('req-flood-with-big-pdus', 'requestor', [('user', {'pdu': convs.RQ_SPEC}), ('burst', convs.enc(convs.AC_SPEC)),
+                                                      ('burst', flood[:n_msgs // 3] + big + flood[n_msgs // 3:] + big +
+                                                       convs.enc(convs.REL_RQ)), ('user', {'pdu': convs.REL_RP}), ('close',)])):
+        base = observe(role, steps, None, budget=400000)
+        total = sum(len(r) for s_ in steps if s_[0] == 'burst' for r in s_[1])
+        if base['outcome'] != 'returned' or len(base['inds']) < n_msgs:
+            ctx.fail('C03:baseline:%s' % base['outcome'], '%s: reference delivery: %s, %d indications'
+                     % (name, base['outcome'], len(base['inds'])), {'conv': name, 'cuts': None, 'long': n_msgs})
+            continue
+        bi_big = max(range(len([1 for s_ in steps if s_[0] == 'burst'])),
+                     key=lambda k: sum(len(r) for r in [s_ for s_ in steps if s_[0] == 'burst'][k][1]))
+        n = sum(len(r) for r in [s_ for s_ in steps if s_[0] == 'burst'][bi_big][1])
+        for chunk in (None, 65536, 4096, 1500, 997, 100):
+            cuts = {} if chunk is None else {bi_big: list(range(chunk, n, chunk))}
+            for fe, b2b in ((True, True), (False, False)) if chunk in (None, 4096) else ((True, True),):
+                case = {'conv': name, 'long': n_msgs, 'chunk': chunk, 'first_eager': fe, 'b2b': b2b}
+                ctx.case(('long', name, chunk, fe, b2b), True, labels=['long-stream', 'conv=' + name, 'bytes>64K'],
+                         sample={'conv': name, 'stream_bytes': total, 'chunk': chunk, 'b2b': b2b})
+                got = observe(role, steps, cuts, fe, b2b, budget=400000)
+                try:
+                    compare(name, base, got, case)
+                except Violation as v:
+                    ctx.fail(v.key, v.what, v.case)
+
+
 def run_random(ctx, n):
     corpus = convs.corpus()
     names = sorted(corpus)
@@ -187,7 +220,7 @@ def run(ctx):
     warnings.simplefilter('ignore')
     corpus = convs.corpus()
     ctx.rule = ('for each of %d conversations (both roles): whole-burst, one-byte dribble, every single cut '
-                'offset, pairs of cut offsets, Hypothesis k-cuts (k<=8); x first segment already waiting or not x '
+                'offset, pairs of cut offsets, Hypothesis k-cuts (k<=8); two long pipelined streams (> 64 KiB, incl. 30 kB PDUs) in chunks of 100..65536 bytes; x first segment already waiting or not x '
                 'segments back-to-back or each after quiescence; cuts are applied inside the byte string the peer '
                 'sends between two local actions; compared with one-PDU-per-segment delivery; non-trivial = a cut '
                 'falls strictly inside a PDU or >=2 PDUs share a segment; distinct by (conversation, cuts, modes)'
@@ -205,11 +238,19 @@ def run(ctx):
         else:
             jobs.append({'conv': name, 'all_modes': False, 'pairs': name in short, 'pair_stride': 1})
     parallel(ctx, run_conv, jobs)
+    run_long(ctx, 3000 if ctx.thorough else 900)
     run_random(ctx, 2000 if ctx.thorough else 300)
 
 
 def replay(case):
     warnings.simplefilter('ignore')
+    if 'long' in case:
+        from ..common import Ctx
+        sub = Ctx('C03', 'quick', 1)
+        run_long(sub, case['long'])
+        for key, ent in sorted(sub.failures.items()):
+            raise Violation(key, ent['what'], ent['case'])
+        return
     role, steps = convs.corpus()[case['conv']]
     base = observe(role, steps, None)
     if case['cuts'] is None:
